@@ -20,26 +20,38 @@ def pre(res, tier):
     lem = []
     for name, ns, kw, extra, expect, nw in configs(tier):
         lem += vdeleg.lemma_units('vd', ns, **kw)
+    lem += vdeleg.lemma_units('vd', 'ipa', **INPLACE) + vdeleg.lemma_units('vd', 'ipb', **INPLACE)
     vdeleg.prove_checker_lemmas(res, sys.modules[__name__], lem)
 
 
+INPLACE = dict(R=1, M=1, N=1, junk=False)
+
+
 def units(tier):
-    return [Unit(name, vdeleg.factory_vd(ns, PROPS, **extra, **kw), expect=expect, max_witnesses=nw) for name, ns, kw, extra, expect, nw in configs(tier)]
+    us = [Unit(name, vdeleg.factory_vd(ns, PROPS, **extra, **kw), expect=expect, max_witnesses=nw) for name, ns, kw, extra, expect, nw in configs(tier)]
+    us.append(Unit('trusted updated in place', vdeleg.factory_vd_inplace('ip', PROPS, **INPLACE), expect=('A/R', 'R/A', 'A/A', 'R/R'), max_witnesses=200))
+    return us
 
 
 def concrete(case):
     if case.get('scenario') == 'lemma':
         return {}
+    if case.get('scenario') == 'vd_inplace':
+        return vdeleg.run_vd_inplace(case)
     return vdeleg.run_vd(case)
 
 
 def agrees(case, obs):
+    if case.get('scenario') == 'vd_inplace':
+        return 'outcomes' in obs and all(CC.same_outcome(p, o) for p, o in zip(case['predicted'], obs['outcomes']))
     return 'outcome' in obs and CC.same_outcome(case.get('predicted'), obs['outcome'])
 
 
 def judge(case, obs):
     if case.get('scenario') == 'lemma':
         return None
+    if case.get('scenario') == 'vd_inplace':
+        return vdeleg.judge_vd_inplace(case, obs, PROPS)
     return vdeleg.judge_vd(case, obs, PROPS)
 
 
